@@ -8,7 +8,7 @@ CONSTANTS
   MaxRestarts = 1
   ExportOn = TRUE
   SampleMod = 100
-  RareMod = 3
+  RareMod = 1
   BlockFaults = {"diff-wrong", "diff-missing", "hdr-parent", "hdr-seed", "hdr-forged", "hdr-time", "hdr-gap", "trunc", "cert-missing", "cert-outsider"}
 INIT MInit
 NEXT MNext
